@@ -59,18 +59,22 @@ def check_case(c):
             rhss = [("vec", bi), ("block", np.stack([bi, ci, bi - 2 * ci], axis=1))]
             if cplxA or not sparse:
                 rhss.append(("cvec", bi + 1j * ci))
-            for override in (False, True):
+            sym, herm = bool(c["cls"]["sym"]), bool(c["cls"]["herm"])
+            # solver override, and the truthful class flags a user may pass instead of relying on detection
+            for override in (False, True, dict(symmetric=sym), dict(hermitian=herm), dict(symmetric=sym, hermitian=herm)):
                 for rname, b in rhss:
                     kw = {}
-                    if override:
+                    if override is True:
                         kw["solver"] = pym.solvers.SolverSparseLU() if sparse else pym.solvers.SolverDenseQR()
+                    elif isinstance(override, dict):
+                        kw.update(override)
                     try:
                         m = pym.LinSolve([pym.Signal("A", M), pym.Signal("b", b.copy())], **kw)
                         x = m.response().sig_out[0].state
                     except Exception as e:
-                        return "linsolve/raise", "LinSolve(%s, %s%s) raised %s: %s (A = %s)" % ("sparse" if sparse else "dense", rname, ", override" if override else "", type(e).__name__, str(e)[:100], A.tolist())
+                        return "linsolve/raise", "LinSolve(%s, %s%s) raised %s: %s (A = %s)" % ("sparse" if sparse else "dense", rname, (", %s" % (override if isinstance(override, dict) else "override")) if override else "", type(e).__name__, str(e)[:100], A.tolist())
                     if not close(x, (adj @ b) / det):
-                        return "linsolve", "LinSolve(%s, %s%s): A x != b (max error %.3g, A = %s)" % ("sparse" if sparse else "dense", rname, ", override" if override else "", np.abs(np.asarray(x) - (adj @ b) / det).max(), A.tolist())
+                        return "linsolve", "LinSolve(%s, %s%s): A x != b (max error %.3g, A = %s)" % ("sparse" if sparse else "dense", rname, (", %s" % (override if isinstance(override, dict) else "override")) if override else "", np.abs(np.asarray(x) - (adj @ b) / det).max(), A.tolist())
         # ---- Inverse
         try:
             Bi = pym.Inverse(pym.Signal("A", Ar)).response().sig_out[0].state
@@ -91,8 +95,11 @@ def check_case(c):
                 xf_exp = aff @ (bf - A[np.ix_(f, p)] @ xp) / dff
                 for sparse in (True, False):
                     M = sps.csc_matrix(Ar) if sparse else Ar
-                    for give in (("both", "free", "prescribed") if (sparse and nrhs is None) else ("both",)):
-                        kw = {}
+                    flagged = {k: True for k in ("symmetric", "hermitian") if c["cls"][k[:3] if k == "symmetric" else "herm"]}
+                    for give in (("both", "free", "prescribed") if (sparse and nrhs is None) else ("both",)) + (("flags",) if flagged else ()):
+                        kw = dict(flagged) if give == "flags" else {}
+                        if give == "flags":
+                            give = "both"
                         if give in ("both", "free"):
                             kw["free"] = f
                         if give in ("both", "prescribed"):
@@ -121,12 +128,14 @@ def check_case(c):
             for sparse in (True, False):
                 M = sps.csc_matrix(Ar) if sparse else Ar
                 label = "StaticCondensation(%s, main=%s, free=%s)" % ("sparse" if sparse else "dense", mi.tolist(), fi.tolist())
-                try:
-                    Ared = pym.StaticCondensation(pym.Signal("A", M), main=mi, free=fi).response().sig_out[0].state
-                except Exception as e:
-                    return "statcond/raise/" + ("sparse" if sparse else "dense"), "%s raised %s: %s (A = %s)" % (label, type(e).__name__, str(e)[:100], A.tolist())
-                if not close(dense_of(Ared), exp):
-                    return "statcond", "%s differs from the Schur complement (A = %s)" % (label, A.tolist())
+                flagged = {k: True for k in ("symmetric", "hermitian") if c["cls"]["sym" if k == "symmetric" else "herm"]}
+                for kw in ({}, flagged) if flagged else ({},):
+                    try:
+                        Ared = pym.StaticCondensation(pym.Signal("A", M), main=mi, free=fi, **kw).response().sig_out[0].state
+                    except Exception as e:
+                        return "statcond/raise/" + ("sparse" if sparse else "dense"), "%s %s raised %s: %s (A = %s)" % (label, kw, type(e).__name__, str(e)[:100], A.tolist())
+                    if not close(dense_of(Ared), exp):
+                        return "statcond", "%s %s differs from the Schur complement (A = %s)" % (label, kw, A.tolist())
     return None
 
 
